@@ -150,9 +150,8 @@ def run(ctx) -> None:
                     if call_attr(c) == "_try_activate_node":
                         flags |= helpers.get("_evaluate_condition", set())
             cond = norm(n.test)
-            waits_on_node = "node." in cond or any(call_attr(c) in helpers for c in ast.walk(n.test) if isinstance(c, ast.Call))
-            if not waits_on_node:
-                continue
+            if m.name in ("visit_ProgramNode", "tick_iterate_subticks") or cond == "True":
+                continue   # the idle loop of the program root / the sub-tick driver are not instruction waits
             n_loops += 1
             ctx.analysed(m)
             inst = f"PInterpreter.{m.name}: while {cond[:60]} consults cancel/force flags"
